@@ -203,4 +203,25 @@ def holds (tol : Rat) (t : List Cell) (recs : List Record) : Bool :=
   onePerCell tol t recs && valuesOk tol Kind.isRatio t recs && valuesOk tol Kind.isPass t recs &&
   valuesOk tol Kind.isAta t recs && absentOk t recs && monotoneOk tol recs
 
+/-! ### the option `remove_empties` (records with their empty summaries) -/
+
+def sameSet (a b : List String) : Bool := a.all b.contains && b.all a.contains
+
+/-- the summary slots of one record: the non-empty summaries of the record are exactly its non-empty slots;
+with `remove_empties` there is no empty slot, without it the key set is EVERY metric name of the table
+(each once) -/
+def entriesOk (removeEmpties : Bool) (r : RecordE) : Bool :=
+  r.base.metrics == nonEmpty r.entries &&
+  (if removeEmpties then r.entries.all (·.2.isSome)
+   else sameSet (r.entries.map (·.1)) (table.map (·.1)) && r.entries.length == table.length)
+
+/-- the tooltip is joined from the non-empty summaries whose field the cell holds, in record order -/
+def tooltipOk (r : RecordE) : Bool :=
+  r.tooltip == (r.entries.filter fun e => e.2.isSome && r.base.fields.contains e.1).map (·.1)
+
+/-- the whole property on (option value, input, output): every clause of `holds` on the records (so: one
+record per cell in cell order for BOTH option values), plus the slots and the tooltip sources -/
+def holdsOpt (removeEmpties : Bool) (tol : Rat) (t : List Cell) (recs : List RecordE) : Bool :=
+  holds tol t (recs.map (·.base)) && recs.all (entriesOk removeEmpties) && recs.all tooltipOk
+
 end Bermuda.Spec.C20
